@@ -94,6 +94,13 @@ func ForceSelfClosingTags(b []byte) []byte {
 			continue
 		}
 
+		if bytes.HasSuffix(openingTagContents, []byte("/")) {
+			// the "opening" tag is itself an already self closed tag (with attributes) that is
+			// directly followed by the closing tag of a parent element with the same name, i.e.
+			// `<data><data xyz/></data>` -- nothing to replace
+			continue
+		}
+
 		b = bytes.ReplaceAll(
 			b,
 			fullMatch,
